@@ -58,6 +58,17 @@ const MAX_TASKS: usize = 512;
 const MAX_WORKERS: usize = 8;
 
 static RUN_ID: AtomicU32 = AtomicU32::new(1);
+/// watchdog expiries so far in this process: after a few of them the remaining waits are cut short, so that a
+/// run against a broken implementation (every other case hanging) still ends in minutes
+static HANGS: AtomicUsize = AtomicUsize::new(0);
+
+fn watchdog() -> Duration {
+    if HANGS.load(Ordering::Relaxed) < 3 { WATCHDOG } else { Duration::from_millis(400) }
+}
+
+fn join_watchdog() -> Duration {
+    if HANGS.load(Ordering::Relaxed) < 3 { JOIN_WATCHDOG } else { Duration::from_millis(1500) }
+}
 
 // ---------------------------------------------------------------------------------------------
 // what a task does
@@ -189,6 +200,66 @@ impl Future for YieldNow {
     }
 }
 
+/// A suspension that depends on wake-ups from a foreign thread. Poll 1 hands the task's waker to a helper
+/// std thread, which wakes the parked task (wake 1). Poll 2 -- caused by wake 1 -- hands the waker over again and
+/// stays inside `poll` until the helper has called `wake()` (wake 2, delivered while the task is being polled),
+/// then returns `Pending`: only wake 2 can bring poll 3, which is `Ready`. All waits are bounded.
+struct RemoteWoken {
+    ctx: Arc<Ctx>,
+    t: usize,
+    polls: u8,
+    to_helper: Option<std::sync::mpsc::Sender<Waker>>,
+    woken: Option<std::sync::mpsc::Receiver<()>>,
+}
+
+impl RemoteWoken {
+    fn new(ctx: Arc<Ctx>, t: usize) -> Self {
+        RemoteWoken { ctx, t, polls: 0, to_helper: None, woken: None }
+    }
+}
+
+impl Future for RemoteWoken {
+    type Output = ();
+
+    fn poll(mut self: Pin<&mut Self>, cx: &mut Context<'_>) -> Poll<()> {
+        self.polls += 1;
+        match self.polls {
+            1 => {
+                let (to_helper, from_task) = std::sync::mpsc::channel::<Waker>();
+                let (woken_tx, woken_rx) = std::sync::mpsc::channel::<()>();
+                let ctx = self.ctx.clone();
+                let t = self.t;
+                thread::spawn(move || {
+                    let Ok(waker) = from_task.recv_timeout(Duration::from_secs(10)) else { return };
+                    // let the task return `Pending` and its worker go to sleep
+                    thread::sleep(Duration::from_micros(300));
+                    ctx.push(format!("k.{t}"));
+                    waker.wake();
+                    let Ok(waker) = from_task.recv_timeout(Duration::from_secs(10)) else { return };
+                    ctx.push(format!("k.{t}"));
+                    waker.wake();
+                    woken_tx.send(()).ok();
+                });
+                to_helper.send(cx.waker().clone()).ok();
+                self.to_helper = Some(to_helper);
+                self.woken = Some(woken_rx);
+                Poll::Pending
+            }
+            2 => {
+                if let Some(tx) = &self.to_helper {
+                    tx.send(cx.waker().clone()).ok();
+                }
+                let ok = self.woken.as_ref().is_some_and(|rx| rx.recv_timeout(Duration::from_secs(5)).is_ok());
+                if !ok {
+                    self.ctx.problem("C18:harness-helper", format!("task {}: the helper thread did not wake in time", self.t));
+                }
+                Poll::Pending
+            }
+            _ => Poll::Ready(()),
+        }
+    }
+}
+
 struct BombWaker {
     ctx: Arc<Ctx>,
     t: usize,
@@ -252,6 +323,7 @@ async fn body(ctx: Arc<Ctx>, spec: Spec) -> u64 {
             's' => compio_runtime::time::sleep(Duration::from_millis(1)).await,
             't' => compio_runtime::time::sleep(Duration::from_millis(2)).await,
             'i' => pipe_io(t).await,
+            'r' => RemoteWoken::new(ctx.clone(), t).await,
             _ => {}
         }
     }
@@ -526,10 +598,13 @@ impl Det {
             return show_seen(*s);
         }
         let Some(rx) = self.rxs.remove(&t) else { return "unknown".into() };
-        let seen = match compio_runtime::time::timeout(WATCHDOG, rx).await {
+        let seen = match compio_runtime::time::timeout(watchdog(), rx).await {
             Ok(Ok(v)) => Seen::Val(v),
             Ok(Err(_)) => Seen::Cancelled,
-            Err(_) => Seen::Hang,
+            Err(_) => {
+                HANGS.fetch_add(1, Ordering::Relaxed);
+                Seen::Hang
+            }
         };
         self.seen.insert(t, seen);
         self.check_seen(t, seen, ex);
@@ -569,10 +644,12 @@ impl Det {
 
     async fn join(&mut self, ex: &mut Exec) -> String {
         let Some(d) = self.disp.take() else { return "no-dispatcher".into() };
-        let res = compio_runtime::time::timeout(JOIN_WATCHDOG, AssertUnwindSafe(d.join()).catch_unwind()).await;
+        let jw = join_watchdog();
+        let res = compio_runtime::time::timeout(jw, AssertUnwindSafe(d.join()).catch_unwind()).await;
         let out = match res {
             Err(_) => {
-                ex.fail("C18:join-hang", format!("join did not return within {JOIN_WATCHDOG:?}"));
+                HANGS.fetch_add(1, Ordering::Relaxed);
+                ex.fail("C18:join-hang", format!("join did not return within {jw:?}"));
                 "hang".to_string()
             }
             Ok(Ok(Ok(()))) => "ok".to_string(),
@@ -716,6 +793,9 @@ fn exec_det(rt: &Runtime, case: &Case) -> Exec {
                     (Ok(t), Some(end)) if t < MAX_TASKS && !d.specs.contains_key(&t) => {
                         ex.tag(format!("body:{}", show_end(end).chars().next().unwrap()));
                         let susp = if *susp == "-" { String::new() } else { susp.to_string() };
+                        if susp.contains('r') {
+                            ex.tag("susp:remote-wake");
+                        }
                         d.dispatch(Spec { t, susp, end })
                     }
                     _ => "bad-op".into(),
@@ -928,6 +1008,9 @@ fn judge_hist(ws: &[&str], ex: &mut Exec) -> String {
                     bad(ex, "C18:receiver-hang-before-join", format!("receiver of task {t} unresolved (join not returned)"));
                 }
             }
+            "k" => {
+                ex.tag("hist:remote-wake");
+            }
             "J" | "JF" => {
                 join_called = true;
                 if p[0] == "JF" {
@@ -1110,7 +1193,10 @@ fn run_conc(rt: &Runtime, cfg: &Cfg, plan: Vec<Vec<PlanTask>>, join_at: JoinAt) 
             let mut rest = vec![];
             for (t, wait, rx) in mine {
                 if wait {
-                    let r = block_on_timeout(rx, WATCHDOG);
+                    let r = block_on_timeout(rx, watchdog());
+                    if r.is_none() {
+                        HANGS.fetch_add(1, Ordering::Relaxed);
+                    }
                     log_seen(&ctx, t, r);
                 } else {
                     rest.push((t, rx));
@@ -1149,16 +1235,22 @@ fn run_conc(rt: &Runtime, cfg: &Cfg, plan: Vec<Vec<PlanTask>>, join_at: JoinAt) 
             JoinAt::AfterSleep(ms) => compio_runtime::time::sleep(Duration::from_millis(ms)).await,
             JoinAt::AfterResults => {
                 for (t, rx) in std::mem::take(&mut rest) {
-                    let r = compio_runtime::time::timeout(WATCHDOG, rx).await.ok();
+                    let r = compio_runtime::time::timeout(watchdog(), rx).await.ok();
+                    if r.is_none() {
+                        HANGS.fetch_add(1, Ordering::Relaxed);
+                    }
                     log_seen(&ctx, t, r);
                 }
             }
         }
         let disp = Arc::try_unwrap(disp).expect("dispatcher still shared");
         ctx.push(if saturated { "JF".into() } else { "J".into() });
-        let res = compio_runtime::time::timeout(JOIN_WATCHDOG, AssertUnwindSafe(disp.join()).catch_unwind()).await;
+        let res = compio_runtime::time::timeout(join_watchdog(), AssertUnwindSafe(disp.join()).catch_unwind()).await;
         match res {
-            Err(_) => ctx.push("Rhang".into()),
+            Err(_) => {
+                HANGS.fetch_add(1, Ordering::Relaxed);
+                ctx.push("Rhang".into())
+            }
             Ok(Ok(Ok(()))) => ctx.push("R.ok".into()),
             Ok(Ok(Err(_))) => ctx.push("R.err".into()),
             Ok(Err(p)) => {
@@ -1173,7 +1265,10 @@ fn run_conc(rt: &Runtime, cfg: &Cfg, plan: Vec<Vec<PlanTask>>, join_at: JoinAt) 
         ctx.gate.store(true, Ordering::SeqCst);
         rest.extend(gate_rx);
         for (t, rx) in rest {
-            let r = compio_runtime::time::timeout(Duration::from_secs(2), rx).await.ok();
+            let r = compio_runtime::time::timeout(watchdog().min(Duration::from_secs(2)), rx).await.ok();
+            if r.is_none() {
+                HANGS.fetch_add(1, Ordering::Relaxed);
+            }
             log_seen(&ctx, t, r);
         }
     });
@@ -1221,7 +1316,9 @@ fn gen_cfg(rng: &mut Rng) -> (usize, bool, String) {
 }
 
 fn gen_susp(rng: &mut Rng) -> String {
-    match rng.below(12) {
+    match rng.below(14) {
+        12 => "r".into(),
+        13 => (*rng.pick(&["ry", "sr", "rr", "yr"])).into(),
         0..=3 => "-".into(),
         4 => "y".into(),
         5 => "s".into(),
@@ -1516,6 +1613,37 @@ fn gen_saturated(rng: &mut Rng) -> Vec<String> {
     l
 }
 
+/// dispatched tasks that depend on wake-ups from foreign threads (`r`): 1..3 workers, both modes, every such
+/// task awaited before or resolved by join
+fn gen_remote(rng: &mut Rng) -> Vec<String> {
+    let w = rng.range(1, 3);
+    let conc = rng.chance(1, 2);
+    let mut l = vec![format!("cfg {w} {} cap={}", if conc { "c" } else { "s" }, rng.pick(&[16u32, 64]))];
+    let n = rng.range(1, 5) as usize;
+    let mut waited = vec![];
+    for t in 1..=n {
+        let susp = *rng.pick(&["r", "r", "ry", "yr", "rs", "rr", "-", "y"]);
+        l.push(format!("d {t} {susp} v{}", rng.below(1000)));
+        if !conc && rng.chance(1, 2) {
+            // sequential mode finishes everything before join returns
+            waited.push(false);
+        } else {
+            l.push(format!("wait {t}"));
+            waited.push(true);
+        }
+    }
+    l.push("join".into());
+    for t in 1..=n {
+        l.push(format!("rx {t}"));
+        l.push(format!("stat {t}"));
+    }
+    l.push("alive".into());
+    if w == 1 {
+        l.push("order".into());
+    }
+    l
+}
+
 /// a burst of short tasks and an immediate join: more tasks than one executor tick polls (61). Sequential
 /// mode must run all of them; concurrent mode may drop the rest unstarted (counted as a tag).
 fn gen_burst(rng: &mut Rng) -> Vec<String> {
@@ -1652,6 +1780,9 @@ fn main() {
             }
             for i in 0..n_det / 8 {
                 cases.push(Case { name: format!("saturated/{i}"), lines: gen_saturated(rng) });
+            }
+            for i in 0..n_det / 8 {
+                cases.push(Case { name: format!("remote/{i}"), lines: gen_remote(rng) });
             }
             cases.extend(gen_conc_all(rng, n_conc, n_big));
             cases
